@@ -73,3 +73,7 @@ def run(ctx, case):
     if len(spec["comps"]) >= 4 and has_rt and lossy:
         ctx.nontrivial([S.canonical(spec), case["ta"]])
     ctx.sample({"spec": _rows.short(spec), "ta": case["ta"], "rows": len(df)})
+
+
+def finish(ctx):
+    _rows.repo_tests_under_monitor(ctx, ACCEPT)
